@@ -8,9 +8,10 @@ use crate::engine::core::read::catalog::IndexRegistry;
 use crate::engine::core::read::event_scope::EventScope;
 use crate::engine::core::read::index_planner::IndexPlanner;
 use crate::engine::core::read::projection::ProjectionPlanner;
+use crate::engine::schema::FieldType;
 use crate::engine::schema::registry::SchemaRegistry;
 use crate::engine::types::ScalarValue;
-use std::collections::HashMap;
+use std::collections::{HashMap, HashSet};
 use std::fs;
 use std::path::{Path, PathBuf};
 use std::sync::Arc;
@@ -31,6 +32,27 @@ pub struct QueryPlan {
     pub index_registry: IndexRegistry,
     event_scope: EventScope,
     inflight_segments: Option<InflightSegments>,
+    /// Time-typed fields of the queried event type (None when the schema is unknown, e.g. `*`).
+    temporal_fields: Option<HashSet<String>>,
+}
+
+/// Names of the datetime / date fields (also under Optional) of an event type's schema.
+fn temporal_fields_of(registry: &SchemaRegistry, event_type: &str) -> Option<HashSet<String>> {
+    let schema = registry.get(event_type)?;
+    Some(
+        schema
+            .fields
+            .iter()
+            .filter(|(_, ft)| match ft {
+                FieldType::Timestamp | FieldType::Date => true,
+                FieldType::Optional(inner) => {
+                    matches!(**inner, FieldType::Timestamp | FieldType::Date)
+                }
+                _ => false,
+            })
+            .map(|(name, _)| name.clone())
+            .collect(),
+    )
 }
 
 impl QueryPlan {
@@ -48,9 +70,12 @@ impl QueryPlan {
                 event_type,
                 ..
             } => {
-                let event_scope = {
+                let (event_scope, temporal_fields) = {
                     let guard = registry.read().await;
-                    EventScope::from_command(event_type, &guard)
+                    (
+                        EventScope::from_command(event_type, &guard),
+                        temporal_fields_of(&guard, event_type),
+                    )
                 };
                 let event_type_uid = match &event_scope {
                     EventScope::Specific { uid, .. } => uid.clone(),
@@ -119,6 +144,7 @@ impl QueryPlan {
                     index_registry: IndexRegistry::new(),
                     event_scope,
                     inflight_segments,
+                    temporal_fields,
                 };
                 // Preload catalogs for discovered segments (best-effort)
                 if let Some(uid) = plan.event_type_uid().await {
@@ -256,15 +282,21 @@ impl QueryPlan {
     }
 
     pub async fn build(command: &Command, registry: Arc<RwLock<SchemaRegistry>>) -> Self {
-        let event_scope = match command {
+        let (event_scope, temporal_fields) = match command {
             Command::Query { event_type, .. } => {
                 let guard = registry.read().await;
-                EventScope::from_command(event_type, &guard)
+                (
+                    EventScope::from_command(event_type, &guard),
+                    temporal_fields_of(&guard, event_type),
+                )
             }
-            _ => EventScope::Specific {
-                event_type: String::new(),
-                uid: None,
-            },
+            _ => (
+                EventScope::Specific {
+                    event_type: String::new(),
+                    uid: None,
+                },
+                None,
+            ),
         };
 
         // Build FilterGroup from WHERE clause if present
@@ -307,7 +339,13 @@ impl QueryPlan {
             index_registry: IndexRegistry::new(),
             event_scope,
             inflight_segments: None,
+            temporal_fields,
         }
+    }
+
+    /// Time-typed fields of the queried event type, when its schema is known.
+    pub fn temporal_fields(&self) -> Option<&HashSet<String>> {
+        self.temporal_fields.as_ref()
     }
 
     pub fn event_scope(&self) -> &EventScope {
